@@ -144,7 +144,8 @@ fn dir_tree(rng: &mut Rng, max_dirs: usize) -> Vec<String> {
         if parent.matches('/').count() >= 2 {
             continue;
         }
-        let name = rng.pick(&labels).to_string();
+        // (now and then a project directory whose name merely CONTAINS "site-packages")
+        let name = if rng.chance(40) { "site-packages-compat".to_string() } else { rng.pick(&labels).to_string() };
         let d = join_rel(&parent, &name);
         if !dirs.contains(&d) {
             dirs.push(d);
@@ -170,9 +171,9 @@ fn helper_module(rng: &mut Rng, dir: &str, k: usize, names: &[String], o: &WsOpt
     let name = if o.stdlib_named_helpers && rng.chance(200) {
         format!("{}.py", rng.pick(&["http", "types", "random", "email", "string"]))
     } else if rng.chance(120) {
-        format!("test_support_{}{}.py", dir.replace('/', "_"), k)
+        format!("test_support_{}{}.py", dir.replace(['/', '-'], "_"), k)
     } else {
-        format!("fx_{}{}.py", dir.replace('/', "_"), k)
+        format!("fx_{}{}.py", dir.replace(['/', '-'], "_"), k)
     };
     PyFile { rel: join_rel(dir, &name), items }
 }
@@ -189,6 +190,9 @@ fn module_ref(rng: &mut Rng, from_dir: &str, target_rel: &str) -> Option<String>
     } else if parent_dir(&tdir).as_deref() == Some(from_dir) {
         // module lives in a child directory: dotted path through the sub-package
         let sub = tdir.rsplit('/').next().unwrap().to_string();
+        if !sub.chars().all(|c| c.is_ascii_alphanumeric() || c == '_') {
+            return None; // not importable by name
+        }
         Some(if stdlib_like || rng.chance(500) { format!(".{}.{}", sub, stem) } else { format!("{}.{}", sub, stem) })
     } else {
         None
@@ -226,7 +230,7 @@ pub fn gen_ws(rng: &mut Rng, o: &WsOpts) -> WsSpec {
                 };
                 let mut h = helper_module(rng, d, helper_k, &pool, o);
                 if files.iter().chain(helpers.iter()).any(|f: &PyFile| f.rel == h.rel) {
-                    h.rel = join_rel(d, &format!("fx_{}{}.py", d.replace('/', "_"), helper_k));
+                    h.rel = join_rel(d, &format!("fx_{}{}.py", d.replace(['/', '-'], "_"), helper_k));
                 }
                 imported_names.extend(fixture_names_of(&h));
                 helpers.push(h);
@@ -337,7 +341,7 @@ pub fn gen_ws(rng: &mut Rng, o: &WsOpts) -> WsSpec {
                     items.insert(0, it);
                 }
             }
-            let tag = if d.is_empty() { "root".to_string() } else { d.replace('/', "_") };
+            let tag = if d.is_empty() { "root".to_string() } else { d.replace(['/', '-'], "_") };
             let rel = if rng.chance(800) { join_rel(d, &format!("test_{}_{}.py", tag, k)) } else { join_rel(d, &format!("{}_{}_test.py", tag, k)) };
             files.push(PyFile { rel, items });
         }
